@@ -24,7 +24,7 @@ def job(j):
             st["samples"].append({"query": run.doc.text, "variables": subreplay.variables_py(rec["given"]), "events": rec["events"],
                                   "actions": rec["actions"], "expected_responses": [render.value_py(o["data"]) if o["cls"] == "exec" else o["cls"] for o in rec["out"]]})
         if mm and len(st["viol"]) < 400:
-            genrun.add_viol(st["viol"], ({"kind": "sub-mismatch", "config": cfg, "refused": rec["refused"], "first": mm[0][:140]},
+            genrun.add_viol(st["viol"], ({"kind": "sub-mismatch", "config": cfg, "refused": rec["refused"] + ("/" + run.invalidation if run.invalidation else ""), "first": mm[0][:140]},
                                {"case": rec, "query": run.doc.text, "mismatches": mm}))
 
     res = tlc.run("MC_sub.tla", cfg, on_line=on_line, workers=1, timeout=3000)
